@@ -101,6 +101,7 @@ pub fn check_dist(d: &Dist, st: &mut Stats, shard: usize) -> Check {
         k
     };
     let mut results: BTreeMap<u8, bool> = BTreeMap::new();
+    let outsiders: Vec<(tmelcrypt::Ed25519PK, Vec<u8>)> = if d.sig_class == 0 { (0..12).map(|j| { let (opk, osk) = crate::util::key(1000 + j); (opk, osk.sign(&hh.0)) }).collect() } else { vec![] };
     for &sub in d.subsets.iter() {
         st.eval();
         let signers: Vec<u8> = keys.iter().copied().filter(|k| sub & (1 << k) != 0).collect();
@@ -160,6 +161,27 @@ pub fn check_dist(d: &Dist, st: &mut Stats, shard: usize) -> Check {
             }
             if d.sig_class == 0 {
                 results.insert(sub, got);
+                // valid signatures of keys that hold no stake add no votes and take none away: the verdict of the
+                // proof extended by 1, (number of stakes + 1) and 12 outsiders is judged by the same rule, and a
+                // confirming proof must stay confirming
+                for n_out in [1usize, (d.stakes.len() + 1).min(12), 12] {
+                    let mut wider = proof.clone();
+                    for (opk, osig) in outsiders.iter().take(n_out) {
+                        wider.insert(*opk, osig.clone().into());
+                    }
+                    st.eval();
+                    let got_w = match catch(|| s.confirm(wider.clone()).is_some()) {
+                        Ok(g) => g,
+                        Err(p) => viol!("confirm-panics", "confirm panicked: {}", p.message),
+                    };
+                    if (p3 > t2 && !got_w) || (got && !got_w) {
+                        viol!("valid-signatures-of-outsiders-unconfirm", "a proof that confirms (or whose signers hold more than 2/3) stops confirming when {} valid signatures of keys without stake are added: {}", n_out, desc());
+                    }
+                    if p3 < t2 && got_w {
+                        viol!("minority-confirms-with-outsiders", "signers holding less than 2/3 confirm the state once {} valid signatures of keys without stake are added: {}", n_out, desc());
+                    }
+                    st.class("proof-extended-by-outsiders");
+                }
             }
         }
         if !signers.is_empty() && signers.len() < keys.len() {
@@ -270,7 +292,7 @@ pub fn run(ctx: &Ctx) -> (Outcome, String, Option<bool>) {
         |d, st, shard| check_dist(d, st, shard),
     );
     out.absorb(o);
-    let rule = format!("Enumerated: every assignment of weights {{1,2,3,5,10}} to 1-{} stakers with distinct keys, active from epoch 0, x every subset of signers with valid signatures (exhaustive: true refers to this sub-space). Also enumerated: 54 near-threshold distributions ((k+1,k,k), (2k+1,k), ... for k from 34 to 10^12) x all signer subsets, the smaller ones repeated at magnitudes 2^100..2^127 (weights shifted left by 100-117 bits plus 0-2, total below 2^128, every residue mod 3) where 3 x votes no longer fits 128 bits. Sampled: 1-6 stakes over 5 keys (several per key), weights to 1000, stakes starting later or already ended, signer subsets, and signatures that are valid / bit-flipped / made by another key / over another header / truncated, plus a foreign signer. Oracle: an invalid signature => not confirmed; all valid and 3*present > 2*total => confirmed; 3*present < 2*total => not confirmed (equality unspecified); over the valid-signature subsets, adding a signer never turns confirmed into not confirmed. For every all-valid case a sibling state (same network, height and stakers, different fee pool) must not be confirmed by the proof that just confirmed the first state. Non-trivial = proper non-empty signer subset with total > 0; distinct by (stakes, subset, signature class).", max_stakers);
+    let rule = format!("Enumerated: every assignment of weights {{1,2,3,5,10}} to 1-{} stakers with distinct keys, active from epoch 0, x every subset of signers with valid signatures (exhaustive: true refers to this sub-space). Also enumerated: 54 near-threshold distributions ((k+1,k,k), (2k+1,k), ... for k from 34 to 10^12) x all signer subsets, the smaller ones repeated at magnitudes 2^100..2^127 (weights shifted left by 100-117 bits plus 0-2, total below 2^128, every residue mod 3) where 3 x votes no longer fits 128 bits. Sampled: 1-6 stakes over 5 keys (several per key), weights to 1000, stakes starting later or already ended, signer subsets, and signatures that are valid / bit-flipped / made by another key / over another header / truncated, plus a foreign signer. Oracle: an invalid signature => not confirmed; all valid and 3*present > 2*total => confirmed; 3*present < 2*total => not confirmed (equality unspecified); over the valid-signature subsets, adding a signer never turns confirmed into not confirmed. Every all-valid proof is also extended by 1, (number of stakes + 1) and 12 valid signatures of keys that hold no stake: same verdict rule, and a confirming proof must keep confirming. For every all-valid case a sibling state (same network, height and stakers, different fee pool) must not be confirmed by the proof that just confirmed the first state. Non-trivial = proper non-empty signer subset with total > 0; distinct by (stakes, subset, signature class).", max_stakers);
     (out, rule, Some(true))
 }
 
